@@ -162,3 +162,41 @@ def write_lock(ctxs, keys=None):
         old[fn] = e
     with open(LOCK, 'w') as f:
         json.dump(old, f, indent=1, sort_keys=True)
+
+
+def run_vcs(ctx, fn, vcs, shash=None, key=None):
+    """Discharge free-standing VCs (tables / lemmas over real source constants) with the same
+    verdict handling as contracts: proved -> obligation; sat + recorded in the lock -> violation
+    without input; sat otherwise -> undecided; zero obligations / unsatisfiable premises -> fault."""
+    lock = load_lock()
+    locked = set(lock.get(fn, {}).get('proved', []))
+    res = verify.discharge(vcs, 10000 if ctx.tier == 'quick' else 30000)
+    nobl = 0
+    for v, r, dt, model in res:
+        if v.kind == 'cover':
+            if r == 'unsat':
+                raise RuntimeError('vacuous premises in %s' % v.name)
+            continue
+        nobl += 1
+        bn = base_name(v.name)
+        if r == 'unsat':
+            ctx.obligation(v.name, fn, 'proved', 'z3', dt, shash)
+        elif r == 'sat' and bn in locked:
+            ctx.obligation(v.name, fn, 'refuted-no-input', 'z3', dt, shash, detail=str(model)[:300])
+            ctx.violation(bn, dict(function=fn, obligation=bn), 'solver refutes an obligation that was '
+                          'discharged on the baseline tree', 'unsat', function=fn, no_input=True,
+                          solver_output='z3: sat\nmodel: %s' % model, text='obligation %s no longer holds' % bn)
+        else:
+            ctx.obligation(v.name, fn, 'undecided', 'z3', dt, shash, detail=str(r))
+    if nobl == 0:
+        raise RuntimeError('no obligations generated for %s' % fn)
+    have = set(base_name(o['name']) for o in ctx.obligations if o['function'] == fn)
+    if key is not None:
+        missing = set(n for n in locked if n.startswith(key)) - have
+        if missing:
+            ctx.obligation(fn.split('.')[-1] + ':locked-obligations-missing', fn, 'undecided', 'pyvc', 0.0,
+                           detail='%d obligations recorded in obligations.lock were not generated: %s'
+                                  % (len(missing), sorted(missing)[:3]))
+    if os.environ.get('VERIF_RELOCK') == '1':
+        write_lock([ctx], None)
+    return nobl
